@@ -201,6 +201,50 @@ def aborted_client_and_page_cache(S, rnd, windex, cnt, res):
             return
 
 
+def aborted_client_and_frame_cache(S, rnd, windex, cnt, res):
+    """the frame counterpart: a frame rendered through copy_filter while the client has already gone must not be cached empty or cut"""
+    for variant in range(2):
+        key = b"abort-frame-%d-%d" % (windex, variant)
+        n_before = rnd.choice([6000000, 7000000])      # more than the kernel lets a socket buffer (tcp_wmem max 4 MiB), so the write meets the reset
+        n_frame = rnd.choice([20000, 40000, 100000])
+        pid = rnd.randrange(1, 1000)
+        ops = ["m1", "w%d.%d" % (n_before, pid), "f", "C%s.%s" % (key.hex(), (b"%d" % n_frame).hex()), "w10.3"]
+        expected = pat(pid, n_before) + pat(7, n_frame) + pat(3, 10)
+        q = b"s=" + ",".join(ops).encode()
+        tok1 = b"AF%d-%da" % (windex, variant)
+        r1 = proto.Req(method=b"GET", script=b"/writer", query=q + b"&tok=" + tok1, token=tok1)
+        c = srv.Conn(S, "http", timeout=10, rcvbuf=4096)
+        try:
+            c.send(proto.http_encode(r1, version=b"1.0"))
+            c.s.settimeout(5)
+            try:
+                c.s.recv(1000)
+            except OSError:
+                pass
+            c.reset()
+        finally:
+            c.close()
+        tk = tok1.decode()
+        S.wait_events(lambda evs: any(e.get("token") == tk and e.get("ev") == "written" for e in evs), 15)
+        tok2 = b"AF%d-%db" % (windex, variant)
+        r2 = proto.Req(method=b"GET", script=b"/writer", query=q + b"&tok=" + tok2, token=tok2)
+        c = srv.Conn(S, "http", timeout=20)
+        try:
+            c.send(proto.http_encode(r2, version=b"1.0"))
+            raw, _ = c.recv_all(30)
+        finally:
+            c.close()
+        d = proto.http_parse_response(raw)
+        cnt("aborted_client_frame_rounds")
+        rp = {"script": q.decode()[:300], "expected_len": len(expected)}
+        if d["status"] != 200 or d["errors"]:
+            res["viol"].append({"key": "c03:response-framing:http-after-aborted-client", "detail": "status %r errors %r" % (d["status"], d["errors"][:3]), "replay": rp})
+            return
+        if d["body"] != expected:
+            res["viol"].append({"key": "c03:frame-cache-serves-what-an-aborted-client-left-behind", "detail": "the client after one that reset its connection before a cached frame was rendered got %d bytes, the application writes %d (frame of %d)" % (len(d["body"]), len(expected), n_frame), "replay": rp})
+            return
+
+
 def keepalive_header_isolation(S, rnd, windex, cnt, res):
     """on one kept-alive HTTP connection: a request whose response carries a cookie and a header, then requests served in raw /
     asynchronous_raw mode whose application writes no header block, an unterminated one, or a complete one: every response must carry
@@ -254,6 +298,8 @@ def worker(args):
         keepalive_header_isolation(S, rnd, windex, cnt, res)
         if not res["viol"]:
             aborted_client_and_page_cache(S, rnd, windex, cnt, res)
+        if not res["viol"]:
+            aborted_client_and_frame_cache(S, rnd, windex, cnt, res)
         for ci in range(ncases):
             if res["viol"]:
                 break
